@@ -13,7 +13,7 @@ ASF = ["string_prefix", "self_move_noop", "move_len_plus_one", "remove_escaped_k
 
 
 def diag_of(rec, ex):
-    return {"op": "patch", "mode": rec.get("mode"), "ret": rec.get("ret"), "idx": rec.get("idx"),
+    return {"op": rec.get("e", "patch"), "k": rec.get("k"), "site": rec.get("site"), "leak": rec.get("leak"), "mode": rec.get("mode"), "ret": rec.get("ret"), "idx": rec.get("idx"),
             "shared": [k for k in ("shared_self", "shared_patch", "shared_src") if rec.get(k)],
             "patch_changed": rec.get("patch") != rec.get("patch_after"),
             "nops": len(rec.get("patch", {}).get("e", [])) if rec.get("patch", {}).get("t") == "array" else -1}
